@@ -1,2 +1,21 @@
 import Driver.C17Ops
-def main : IO Unit := Driver.run Driver.C17Ops.step
+import Gql.Types.SchemaRoots
+/-! C19 driver: the schema-content operations shared with C17, plus `rootsstable A B` — the
+decidable hypothesis of `Gql.Props.C19.extend_eq_build` on two definition lists. -/
+namespace Driver.C19
+open Gql Gql.Types Gql.Types.SExp Driver
+
+def step (line : String) : String :=
+  match words line with
+  | "rootsstable" :: toks =>
+    match parseToks toks with
+    | some [a, b] =>
+      match dDefs a, dDefs b with
+      | some a, some b => if rootsStable a b then "T" else "F"
+      | _, _ => "bad-args"
+    | _ => "bad-sexp"
+  | _ => Driver.C17Ops.step line
+
+end Driver.C19
+
+def main : IO Unit := Driver.run Driver.C19.step
